@@ -65,10 +65,4 @@ theorem desired_lt_bound (r : Int) (S : List Int) (h0 : 0 ≤ r) : ∀ o ∈ des
   have : (maxReplicaAndSlots r S).1 = (extend r (dedupSort S)).1 := rfl
   omega
 
-theorem C01d_exact_int32 (v : SetView) (cur upd : String) (r : Int) (hr : v.replicas = some r) (h0 : 0 ≤ r)
-    (hpar : v.parallel = true) (hdel : v.deleting = false) (hsmall : r + v.slots.length ≤ maxInt32) :
-    createOrds (observe (updateStatefulSet v cur upd [] []).1.acts) = desired r v.slots :=
-  C01d_exact_gen v cur upd [] r hr hpar hdel (by intro o; rfl)
-    (fun o ho => lt_of_lt_of_le (desired_lt_bound r v.slots h0 o ho) hsmall)
-
 end Asts
